@@ -1852,7 +1852,8 @@ def describe_callable(v, depth=0):
 GENERIC_PRELUDE = (
     "from dataclasses import dataclass\n"
     "from decimal import Decimal\n"
-    "from typing import Any, Dict, Generic, List, NamedTuple, Optional, Tuple, TypedDict, TypeVar, TypeVarTuple, Union, Unpack\n"
+    "from typing import Annotated, Any, Dict, Generic, List, NamedTuple, Optional, Tuple, TypedDict, TypeVar, TypeVarTuple, Union, Unpack\n"
+    "from generics_family_aux import ItemT\n"
     "Ts = TypeVarTuple('Ts')\n"
     "from attrs import define as attrs_define\n"
     "from pydantic import BaseModel as PydBaseModel\n"
@@ -1869,8 +1870,26 @@ def generics_family(tier, seed):
     from adaptix._internal.morphing.model.basic_gen import CodeGenAccumulator
     import types
 
+    # a second module: a TypeVar with a STRING bound lives there together with the class the string names; the spec modules
+    # import the TypeVar and define a homonym of that class (the bound is resolved where the TypeVar was made)
+    if "generics_family_aux" not in sys.modules:
+        aux = types.ModuleType("generics_family_aux")
+        sys.modules["generics_family_aux"] = aux
+        exec("from dataclasses import dataclass\nfrom typing import TypeVar\n"
+             "@dataclass\nclass Item:\n    title: str\n"
+             "ItemT = TypeVar('ItemT', bound='Item')\n", aux.__dict__)
     # spec: classes in definition order: (name, params, [(base, [args])], {field: type expr}); queries: type expressions
     specs = {
+        # a directly tagged type variable, and a tagged container of it
+        "annotated_var": {"classes": [("A", ["T"], [], {"x": "Annotated[T, 'm']", "xs": "Annotated[List[T], 'm']", "o": "Optional[Annotated[T, 'm']]"}),
+                                      ("B", ["U"], [("A", ["U"])], {"own": "Annotated[U, 'k']"}),
+                                      ("IntA", [], [("A", ["int"])], {})],
+                          "queries": ["A[int]", "A[Decimal]", "B[str]", "IntA"]},
+        # string bound of a TypeVar made in another module; this module has its own class of that name
+        "foreign_string_bound": {"classes": [("Item", [], [], {"n": "int"}),
+                                             ("Holder", ["ItemT"], [], {"item": "ItemT", "items": "List[ItemT]"}),
+                                             ("Shelf", ["ItemT"], [("Holder", ["ItemT"])], {})],
+                                 "queries": ["Holder", "Shelf"]},
         "simple": {"classes": [("A", ["T"], [], {"x": "T", "y": "int"})],
                    "queries": ["A[int]", "A[str]", "A[Decimal]", "A[bytes]", "A", "A[bool]"]},
         "containers": {"classes": [("A", ["T"], [], {"xs": "List[T]", "o": "Optional[T]", "d": "Dict[str, T]", "p": "T"})],
